@@ -29,6 +29,11 @@ def build_project_sig(sig, names):
             db_table_comment=ms.get('comment'),
             index_together=[tuple(names.field(x) for x in t) for t in (ms.get('it') or [])])
         for ix in ms.get('idx') or []:
+            if ix.get('expr', NONE) not in (NONE, None):
+                # an expression-only index has NO field list (fields is None)
+                msig.add_index_sig(IndexSignature(fields=None, name=ix['name'],
+                                                  expressions=[models.F(names.field(ix['expr']))]))
+                continue
             msig.add_index_sig(IndexSignature(
                 fields=[names.field(x) for x in ix['fields']],
                 name=None if ix.get('name', NONE) == NONE else ix['name']))
